@@ -31,6 +31,7 @@ def register(reg):
                           "and all(len(P.node_list[h]) >= 1 and P.node_list[h][0].depth == h for h in range(P.depth + 1))")
     pred("TW_root", "P", "len(P.node_list[0]) == 1 and P.node_list[0][0] is P.root and P.root.parent is None "
                          "and P.root.index == 1 and P.root.domain is P.domain")
+    pred("TW_listed", "P", "all(P.node_list[h][k] in P.node_list[h] %s)" % both)
     pred("TW_depths", "P", "all(P.node_list[h][k].depth == h %s)" % both)
     pred("TW_nodup", "P", "all(implies(P.node_list[h][k] is P.node_list[h][k2], k == k2) %s "
                           "for k2 in range(len(P.node_list[h])))" % both)
@@ -149,7 +150,6 @@ def register(reg):
     ]
     fn("KaryPartition.make_children", implements="Partition.make_children", props="C01 C02 C03 C14 C16",
        params=MC_PARAMS, locals={"new_nodes": "list[ref:$N]"},
-       requires=[("K", "self.K >= 2", "C01 C02")],
        ensures=[CHAIN, EQUAL, KFRESH])
     loop("KaryPartition.make_children", 0, props="C02 C03", var="i", modifies=["list(new_nodes)"],
          invariants=kary_inv + [
@@ -158,7 +158,6 @@ def register(reg):
          ])
     fn("RandomKaryPartition.make_children", implements="Partition.make_children", props="C01 C02 C03 C14 C16",
        params=MC_PARAMS, locals={"new_nodes": "list[ref:$N]"},
-       requires=[("K", "self.K >= 2", "C01 C02")],
        ensures=[CHAIN, KFRESH])
     loop("RandomKaryPartition.make_children", 0, props="C02 C03", var="i", modifies=["list(new_nodes)"],
          invariants=kary_inv + [
@@ -215,4 +214,59 @@ def register(reg):
              ("len", "len(domain) == dim and fresh(domain)"),
              ("picked", "all(domain[q] is combination_list[len(parent_domain) - q - 1][0] or "
                         "domain[q] is combination_list[len(parent_domain) - q - 1][1] for q in range(dim))"),
+         ])
+
+    # ------------------------------------------------------------------ constructors
+    PINIT_ENS = treewf("self") + [
+        ("fields", "self.domain is domain and self.depth == 0 and self.node == node", "C03 C14"),
+        ("root", "fresh(self.root) and NodeInit(self.root) and self.root.children is None and fresh(self.node_list)", "C03 C06"),
+    ]
+    fn("Partition.__init__", props="C01 C02 C03 C14",
+       params={"domain": "list[list[real]]", "node": "cls:$N"},
+       requires=[("box", "Box(domain)", "C01 C02")],
+       ensures=PINIT_ENS)
+    for P in ("BinaryPartition", "RandomBinaryPartition", "DimensionBinaryPartition"):
+        fn(P + ".__init__", props="C01 C02 C03 C14",
+           params={"domain": "list?[list[real]]", "node": "cls:$N"},
+           requires=[("box", "implies(domain is not None, Box(domain))", "C01 C02")],
+           raises={"ValueError": "domain is None"},
+           ensures=PINIT_ENS)
+    for P in ("KaryPartition", "RandomKaryPartition"):
+        fn(P + ".__init__", props="C01 C02 C03 C14",
+           params={"domain": "list?[list[real]]", "K": "int", "node": "cls:$N"},
+           requires=[("box", "implies(domain is not None, Box(domain))", "C01 C02"), ("K", "K >= 2", "C01 C02")],
+           raises={"ValueError": "domain is None"},
+           ensures=PINIT_ENS + [("K", "self.K == K", "C02 C03")])
+
+    # ------------------------------------------------------------------ Partition.deepen
+    fn("Partition.deepen", props="C01 C03 C13",
+       params={},
+       requires=treewf("self"),
+       modifies=["*P_node.children", "self.depth", "list(self.node_list)"],
+       ensures=treewf("self") + [
+           ("depth", "self.depth == old(self.depth) + 1", "C03 C13"),
+           ("layers-kept", "all(self.node_list[h] is old(self.node_list[h]) and len(self.node_list[h]) == old(len(self.node_list[h])) "
+                           "for h in range(old(self.depth) + 1))", "C03"),
+           ("layers-append-only",
+            "all(self.node_list[h][k] is old(self.node_list[h][k]) for h in range(old(self.depth) + 1) "
+            "for k in range(old(len(self.node_list[h]))))", "C03"),
+           ("all-expanded", "all(self.node_list[old(self.depth)][k].children is not None "
+                            "for k in range(len(self.node_list[old(self.depth)])))", "C03 C13"),
+           ("inner-untouched", "all(self.node_list[h][k].children is old(self.node_list[h][k].children) "
+                               "for h in range(old(self.depth)) for k in range(len(self.node_list[h])))", "C03 C04"),
+           ("layer-size", "len(self.node_list[self.depth]) == Arity(self) * old(len(self.node_list[self.depth]))", "C13"),
+       ])
+    loop("Partition.deepen", 0, props="C03 C13", var="i",
+         invariants=treewf("self") + [
+             ("depth", "self.depth == depth + (1 if i > 0 else 0) and depth == old(self.depth)"),
+             ("layers-kept", "all(self.node_list[h] is old(self.node_list[h]) and len(self.node_list[h]) == old(len(self.node_list[h])) "
+                             "for h in range(depth + 1))"),
+             ("layers-append-only", "all(self.node_list[h][k] is old(self.node_list[h][k]) for h in range(depth + 1) "
+                                    "for k in range(old(len(self.node_list[h]))))"),
+             ("done", "all(self.node_list[depth][k].children is not None for k in range(i))"),
+             ("todo", "all(self.node_list[depth][k].children is None for k in range(i, len(self.node_list[depth])))"),
+             ("inner-untouched", "all(self.node_list[h][k].children is old(self.node_list[h][k].children) "
+                                 "for h in range(depth) for k in range(len(self.node_list[h])))"),
+             ("layer-size", "implies(i > 0, len(self.node_list[depth + 1]) == Arity(self) * i)"),
+             ("new-layer-fresh", "implies(i > 0, fresh(self.node_list[depth + 1]))"),
          ])
